@@ -210,9 +210,13 @@ func (a *SparseInt64Matrix) Set(b ConstMatrix) {
   if n1 != n2 || m1 != m2 {
     panic("Copy(): Matrix dimension does not match!")
   }
-  for it := a.Iterator(); it.Ok(); it.Next() {
-    i, j := it.Index()
-    it.Get().Set(b.ConstAt(i, j))
+  for it := a.JointIterator(b); it.Ok(); it.Next() {
+    s1, s2 := it.Get()
+    if s1 == nil {
+      i, j := it.Index()
+      s1 = a.At(i, j)
+    }
+    s1.Set(s2)
   }
 }
 func (matrix *SparseInt64Matrix) SetIdentity() {
